@@ -592,7 +592,7 @@ func TestC14Controlled(t *testing.T) {
 	defer vt.Watch("TestC14Controlled", 120*time.Second)()
 	rec := vt.For("C14")
 	rec.Rule("two real jsonrpc2.Remotes joined by a harness codec whose deliveries are decided by the test controller (FIFO per direction, any interleaving across directions, writers parked right after sending so that replies can arrive before the caller waits); 0-4 callers per side with nested call-backs of depth 0-3 through CtxService(ctx); controller choices (rapid draws): run a parked caller, deliver the next A->B or B->A message, cancel a caller (<=2); oracle: every call returns its own token chain or context.Canceled iff it was cancelled, a cancelled call returns by the next quiescent point, every request level is handled exactly once, the context service is the arrival connection, no deadlock while messages remain deliverable, no goroutine left blocked after both ends close; non-trivial = >=2 callers and a reordering, a cancellation or a nested call-back; distinct by callers + depths + schedule")
-	rapid.Check(t, func(rt *rapid.T) {
+	check(t, func(rt *rapid.T) {
 		rapid.SyncTest(rt, func(rt *rapid.T) { c14Case(rt, rec) })
 	})
 }
@@ -603,7 +603,7 @@ func TestC14FreeRunning(t *testing.T) {
 	defer vt.Watch("TestC14FreeRunning", 120*time.Second)()
 	rec := vt.For("C14")
 	rec.Rule("free-running (statistical, -race): 1-8 callers per side with nested call-backs (depth<=3) and 0/1ns deadlines over net.Pipe + IOCodec (jsonrpc2.ServePipe); every call returns its own token chain or its context's error; distinct by callers + depths")
-	rapid.Check(t, func(rt *rapid.T) {
+	check(t, func(rt *rapid.T) {
 		rapid.SyncTest(rt, func(rt *rapid.T) {
 			rb, ra := jsonrpc2.ServePipe()
 			svcA := &EchoSvc{side: "A", handled: map[string]int{}, self: ra}
@@ -725,7 +725,7 @@ func TestC14ManyOutstanding(t *testing.T) {
 	defer vt.Watch("TestC14ManyOutstanding", 120*time.Second)()
 	rec := vt.For("C14")
 	rec.Rule("many outstanding calls: 20-120 callers on one end of a default connection (jsonrpc2.ServePipe: no pending limit), or 2-49 callers on a connection configured like the pool server's (50 reply slots, drop 10 when full), send before any reply exists (the handler holds every request until all have arrived), some are cancelled meanwhile, then the replies come back in generated order; oracle: every call that was not cancelled returns its own token, cancelled ones return their context's error; distinct by (callers, cancelled, order)")
-	rapid.Check(t, func(rt *rapid.T) {
+	check(t, func(rt *rapid.T) {
 		rapid.SyncTest(rt, func(rt *rapid.T) {
 			rb, ra := jsonrpc2.ServePipe()
 			defer ra.Close()
